@@ -206,6 +206,7 @@ void WorldQ::on_queue_event(const Event &e) {
       } else if (parse_qpath(e.path2, dir, n) && dir == "todo") {
         m->published = true; m->accepted = true; m->phase = GMsg::QUEUED; m->t_published = k->clock;
         check_publication(m, e);
+        if (!m->bounce_of.empty()) check_bounce(m);
         if (tg) tg->on_published(m);
       }
       break;
@@ -407,7 +408,7 @@ void WorldQ::on_send_event(const Event &e) {
           GRcpt *r = nullptr;
           for (auto &x : m->rc) if (!x.marked && !x.noted && (x.last_verdict == 'D' || x.last_verdict == 'Z')) { if (x.addr == who || (x.addr.size() > who.size() && x.addr.compare(x.addr.size() - who.size(), who.size(), who) == 0)) { r = &x; break; } }
           if (!r) for (auto &x : m->rc) if (!x.marked && !x.noted && (x.last_verdict == 'D' || x.last_verdict == 'Z')) { r = &x; break; }
-          if (r) { r->noted = true; k->probe("bounce_note"); }
+          if (r) { r->noted = true; r->note_seq = ++note_counter; k->probe("bounce_note"); }
         }
       }
       break;
@@ -428,6 +429,7 @@ void WorldQ::on_send_event(const Event &e) {
       if (dir == "bounce" && m) {
         bool discard = m->info_sender == "#@[]";
         bool ok = discard || (bounce_child_seen && bounce_child_status == 0);
+        if (!ok && enabled("c14")) violate("C14.bounce-record-dropped", "bounce/" + std::to_string(n) + " unlinked although no bounce was successfully queued");
         if (!ok && enabled("c03")) violate("C03.bounce-record-dropped", "bounce/" + std::to_string(n) + " unlinked without a successfully queued bounce (child status " + std::to_string(bounce_child_status) + ")");
         for (auto &r : m->rc) if (r.noted) { r.noted = false; r.bounced = true; }
         if (discard) k->probe("triple_bounce_discarded");
@@ -489,7 +491,7 @@ void WorldQ::after_crash() {
 
 void WorldQ::finish() {
   full_scan_check("end of run");
-  finish_c01(); finish_c03();
+  finish_c01(); finish_c03(); finish_c14();
   if (second_pid && enabled("c02") && !second_got_lock) {
     int code = (second_status >> 8) & 0xff;
     if (second_status != -1 && (second_status & 0x7f) == 0 && code != 111) violate("C02.second-daemon-status", "second qmail-send exited " + std::to_string(code) + ", expected 111");
@@ -509,6 +511,11 @@ void WorldQ::finish_c01() {
       if (b && !(bynum.count(m->num) && bynum[m->num] != m)) violate("C01.leftover-not-collected", m->id + " (msg " + std::to_string(m->num) + ") left " + pat_str(b) + "after the collection period");
     }
   }
+}
+
+void WorldQ::finish_c14() {
+  if (!enabled("c14") || !plan->knobs.getb("expect_drain", false) || !k->abort_reason.empty() || !send_pid || send_term_seen) return;
+  for (auto *m : msgs) if (m->accepted && m->phase != GMsg::FINISHED) { violate("C14.chain-not-drained", m->id + " (msg " + std::to_string(m->num) + ", sender \"" + printable(m->info_sender) + "\") is still queued: the bounce chain did not end"); break; }
 }
 
 void WorldQ::finish_c03() {
